@@ -1,19 +1,13 @@
 (* Pins_C01.v — the statements of Props_C01.v, pinned. *)
 From FV Require Import Base ListLib GroupModel GroupProofs GroupProofs2 GroupWitness Props_C01.
 Open Scope N_scope.
-Check C01_sound_except_K11 :
+Check C01_sound :
   forall (H : list N -> hash) (T : list N -> option (list N)) (c : gcfg) (n : nd) (scanned : list file),
     wf_nd n -> wf_ids scanned -> wf_len scanned -> collision_free H c scanned ->
-    ~ K11 c scanned -> skip_content c = false -> transform c = false ->
+    skip_content c = false -> transform c = false ->
     forall g, In g (group_files H T c n scanned) ->
     forall f f', In f (gfiles g) -> In f' (gfiles g) ->
       fdata f = fdata f' /\ glen g = N.of_nat (length (fdata f)).
-Check C01_K11_witness :
-  exists (H : list N -> hash) (T : list N -> option (list N)) (c : gcfg) (n : nd) (scanned : list file),
-    wf_nd n /\ wf_ids scanned /\ wf_len scanned /\ collision_free H c scanned /\
-    skip_content c = false /\ transform c = false /\ K11 c scanned /\
-    ~ (forall g, In g (group_files H T c n scanned) -> forall f f', In f (gfiles g) -> In f' (gfiles g) ->
-         fdata f = fdata f' /\ glen g = N.of_nat (length (fdata f))).
 Check C01_transform :
   forall (H : list N -> hash) (T : list N -> option (list N)) (c : gcfg) (n : nd) (scanned : list file),
     wf_nd n -> wf_ids scanned -> collision_free_T H T scanned -> transform c = true ->
@@ -21,9 +15,12 @@ Check C01_transform :
     forall f f', In f (gfiles g) -> In f' (gfiles g) ->
       exists out, T (fdata f) = Some out /\ T (fdata f') = Some out /\ glen g = N.of_nat (length out).
 (* the definitions the statements rest on, pinned as well *)
-Check (eq_refl : K11 = fun c scanned =>
-    exists p s f, max_prefix c = Some p /\ max_suffix c = Some s /\ In f scanned /\
-                  suffix_threshold (dkind c (fdev f)) <= flen f /\ flen f < p /\ flen f <= s).
+Check (eq_refl : collision_free = fun H c scanned =>
+    forall f f', In f scanned -> In f' scanned -> flen f = flen f' ->
+      (H (fdata f) = H (fdata f') \/
+       exists s, In s (suffix_cands c) /\ s < flen f /\
+                 hxor (H (fdata f)) (H (sfx s (fdata f))) = hxor (H (fdata f')) (H (sfx s (fdata f')))) ->
+      fdata f = fdata f').
 Check (eq_refl : wf_ids = fun fs => forall f f', In f fs -> In f' fs -> fid f = fid f' -> fdata f = fdata f' /\ flen f = flen f').
 Check (eq_refl : wf_nd = fun n => (forall st d l, Permutation.Permutation (order n st d l) l) /\
                                   (forall st l, Permutation.Permutation (arrive n st l) l)).
